@@ -1005,7 +1005,74 @@ def run_bound_partial_touch(ctx, i, rng):
       ctx.check(False, 'bind:unbound_submodule_differs', dict(case=desc, error=repr(e)[:200]))
 
 
+def run_lazy_init_mutable(ctx, i, rng):
+  """lazy_init / eval_shape(init) / jit(init) with a NON-DEFAULT `mutable` on a module whose set of variables depends on what is
+  mutable (is_mutable_collection guards, constant sows into a non-default collection): each gives the tree structure, shapes and
+  dtypes of the concrete init(..., mutable=<the same filter>) - and the values, since nothing here depends on input values.
+  (Round h: the `case` stream calls lazy_init with the default filter only.)"""
+  import jax
+  import jax.numpy as jnp
+  import flax.linen as nn
+  from flax.core.scope import DenyList
+  fname, mut = [('default', None), ('params', ['params']), ('params+stats', ['params', 'stats']),
+                ('deny(intermediates,stats)', DenyList(['intermediates', 'stats'])), ('True', True),
+                ('params+probes', ('params', 'probes')), ('deny(probes)', DenyList('probes')), ('str', 'params')][i % 8]
+  nested = (i // 8) % 2 == 1
+  method = [None, 'alt'][(i // 16) % 2]
+  desc = dict(mutable=fname, nested=nested, method=method)
+  with ctx.case('lazy_init_mutable', i, desc, nontrivial=mut is not None):
+    class Leaf(nn.Module):
+      @nn.compact
+      def __call__(self, x):
+        y = nn.Dense(3, name='d')(x)
+        if self.is_mutable_collection('stats'):
+          self.variable('stats', 'count', lambda: jnp.zeros((), jnp.int32))
+        self.sow('probes', 'tag', jnp.ones((2,), jnp.bfloat16))
+        self.sow('intermediates', 'tag', jnp.ones((1,)))
+        return y
+
+      @nn.compact
+      def alt(self, x):
+        if self.is_mutable_collection('stats'):
+          self.variable('stats', 'alt_count', lambda: jnp.ones((2,), jnp.int32))
+        return nn.Dense(2, name='e')(x) * 2
+
+    class Top(nn.Module):
+      @nn.compact
+      def __call__(self, x):
+        if self.is_mutable_collection('probes'):
+          self.variable('probes', 'top', lambda: jnp.zeros((1, 1)))
+        return Leaf(name='leaf')(x)
+
+      @nn.compact
+      def alt(self, x):
+        return Leaf(name='leaf').alt(x)
+
+    m = Top() if nested else Leaf()
+    kw = {} if mut is None else {'mutable': mut}
+    if method:
+      kw['method'] = method
+    x = jnp.ones((2, 4))
+    key = jax.random.key(i)
+    v0 = m.init(key, x, **kw)
+    want = struct_of(v0)
+    lz = m.lazy_init(key, jax.ShapeDtypeStruct(x.shape, x.dtype), **kw)
+    ctx.op('lazy_init(mutable=non-default)')
+    ctx.check(struct_of(lz) == want, 'shape_only:lazy_init:mutable_filter',
+              lambda: dict(case=desc, want=sorted(v0), got=sorted(lz)))
+    ctx.check(struct_of(lz) != want or close(lz, v0), 'shape_only:lazy_init_values:mutable_filter', lambda: dict(case=desc))
+    es = jax.eval_shape(lambda k, a: m.init(k, a, **kw), key, x)
+    ctx.check(struct_of(es) == want, 'shape_only:eval_shape:mutable_filter', lambda: dict(case=desc, got=sorted(es)))
+    jt = jax.jit(lambda k, a: m.init(k, a, **kw))(key, x)
+    ctx.check(struct_of(jt) == want and close(jt, v0), 'shape_only:jit_init:mutable_filter', lambda: dict(case=desc, got=sorted(jt)))
+    # init_with_output agrees with init on the variables for the same filter
+    _, v1 = m.init_with_output(key, x, **kw)
+    ctx.check(struct_of(v1) == want and close(v1, v0), 'shape_only:init_with_output:mutable_filter', lambda: dict(case=desc))
+
+
 def run(ctx):
+  for i in ctx.indices(32, 'lazy_init_mutable'):
+    run_lazy_init_mutable(ctx, i, ctx.rng('lazy_init_mutable', i))
   for i in ctx.indices(20, 'bound_partial_touch'):
     run_bound_partial_touch(ctx, i, ctx.rng('bound_partial_touch', i))
   for i in ctx.indices(8, 'sow_perturb_clash'):
